@@ -7,13 +7,16 @@ From stdpp Require Import base option list numbers fin_maps nmap.
 From Verif.Base Require Import Bytes.
 From Verif.Topics Require Import Predefined.
 From Verif.Codec Require Import Packets Decode Encode RefParse.
-From Verif.Checkers Require Import ChkCodec.
+From Verif.Checkers Require Import ChkCodec ChkGw.
+From Verif.Gateway Require Import GwTypes GwStep.
 
 Definition nmap_empty : topic_map := ∅.
 Definition nmap_insert (i : N) (n : bytes) (m : topic_map) : topic_map := <[i := n]> m.
+Definition nmap_to_list {A} (m : Nmap A) : list (N * A) := map_to_list m.
 Definition nmap_lookup (i : N) (m : topic_map) : option bytes := m !! i.
 
 Extraction "model.ml"
-  beq nmap_empty nmap_insert nmap_lookup get_name get_ids get_id pd_add pd_merge
+  beq nmap_empty nmap_insert nmap_lookup nmap_to_list get_name get_ids get_id pd_add pd_merge
   read_packet read_dgram pack ref_parse ref_split wf_pkt pkt_eqb chk_C21 chk_C22 chk_short
-  encode_short decode_short is_short_topic.
+  encode_short decode_short is_short_topic
+  init_state gw_step gw_run chk_C14 chk_C01 chk_C23 chk_C24 obs_of_outs mqtt_valid.
